@@ -80,7 +80,7 @@ def body_family(pid, tier, seed):
         return b2 + sample(b3, 60) + sample(w2, 20)
     if pid in ("C15", "C21", "C18", "C16"):
         return b2 + sample(b3, 60) + sample(w2, 15)
-    if pid in ("C22", "C05"):
+    if pid in ("C22", "C05", "C26"):
         return sample(b2, 30) + sample(b3, 25)
     return b2
 
@@ -95,6 +95,7 @@ MODES = {
     "C21": ["block_alt", "empty_block_alt"],
     "C22": ["semantic_after", "block_entry", "block_exit", "block_alt", "func_entry", "func_exit"],
     "C05": ["before", "after", "semantic_after", "block_entry", "block_exit", "func_exit"],
+    "C26": ["before", "after", "alt", "semantic_after", "block_entry", "block_exit", "block_alt", "func_entry", "func_exit"],
 }
 PATHS = ["moditer", "moditer_at", "fnmod", "fnmod_at", "compiter"]
 
@@ -123,6 +124,8 @@ def make_cases(pid, tier, seed):
         for pi, plan in enumerate(plans):
             if pid in ("C22",):
                 paths = PATHS
+            elif pid == "C26":
+                paths = ["moditer", "compiter"]
             elif pid == "C15":
                 paths = [PATHS[(bi + pi) % 5]]
             else:
@@ -246,7 +249,7 @@ def run_engine_t(pid, tier, seed, out, ev):
                 # rejected at the call: acceptable for C22 ("rejected at the call rather than dropped"); for the other
                 # properties a rejected applicable injection means the property cannot be observed on this case
                 c["_rejected"] = r.get("panic", "")
-                if pid != "C22":
+                if pid not in ("C22", "C26"):
                     violations.append((c, "injection rejected (panic at the call): %s" % r.get("panic", "")[:120], r))
                 continue
             violations.append((c, "panic during %s: %s" % (r.get("stage"), r.get("panic", "")[:160]), r))
@@ -259,6 +262,9 @@ def run_engine_t(pid, tier, seed, out, ev):
         if pid == "C05":
             if not r.get("second_equal", False):
                 violations.append((c, "second encode() differs from the first", r))
+            continue
+        if pid == "C26":
+            c["_ops"] = impl_ops
             continue
         if pid == "C22":
             # "reflected in the encoded module": the probe's code (i32.const <marker>; call $probe) occurs in the output
@@ -340,6 +346,17 @@ def run_engine_t(pid, tier, seed, out, ev):
         else:
             out.inconclusive.append("obligation %s: %s" % (c["id"], r))
     C.say("[T] solved %d obligations: %d unsat, %d sat, solver %.0fs" % (len(solved), n_unsat, n_sat, tres["solver_s"]))
+    if pid == "C26":
+        groups = {}
+        for c in cases:
+            groups.setdefault(c["id"].rsplit("-", 1)[0], {})[c["path"]] = c
+        for gid, g in groups.items():
+            a, b = g.get("moditer"), g.get("compiter")
+            if a is None or b is None:
+                continue
+            ra, rb = byid.get(a["id"], {}), byid.get(b["id"], {})
+            if (ra.get("ok"), ra.get("ops"), ra.get("locals")) != (rb.get("ok"), rb.get("ops"), rb.get("locals")):
+                violations.append((b, "the component iterator emits a different function than the module iterator for the same plan", {"moditer": ra, "compiter": rb}))
     # ---- C22 cross-path agreement: a special-mode probe accepted on one path must be reflected on every path
     if pid == "C22":
         groups = {}
